@@ -11,12 +11,16 @@ for mp in sorted(glob.glob("/verif/seeded/*/meta.json")):
         if len(line) > 25:
             first = line
             break
-    conf = m.get("confirmed", {})
-    ok = ("with_change=1" in conf.get("demo", "") and "without_change=0" in conf.get("demo", "")) and "missing=0" in conf.get("pinned_suite_with_change", "")
+    d = os.path.dirname(mp)
+    rd = lambda f: open(os.path.join(d, f)).read() if os.path.exists(os.path.join(d, f)) else ""  # noqa: E731
+    demo, bl = rd("demo.txt"), rd("baseline.txt")
+    ok = "with_change=1" in demo and "without_change=0" in demo and "missing=0" in bl
     caught = ", ".join(m.get("caught_by", [])) or "**missed**"
     if m.get("neutralised") and not m.get("caught_by"):
         caught = "n/a (neutralised on HEAD: demo passes with the change)"
-    rows.append("| %s | %s | %s | %s |" % (m["name"], re.sub(r"\s+", " ", first)[:150].replace("|", "/"), "yes" if ok else "NOT CONFIRMED", caught))
-print("| seed | what it is (author's first line) | confirmed by me (demo 0/1, pinned suite passes) | caught by |")
-print("|---|---|---|---|")
+    head = (m.get("checked_against", "").split("HEAD ")[-1].split(" ")[0]) or "?"
+    rows.append("| %s | %s | %s | %s | %s |" % (m["name"], re.sub(r"\s+", " ", first)[:110].replace("|", "/"), "yes" if ok else "NOT CONFIRMED", caught, head))
+rows.sort(key=lambda r: (r.split("|")[1].strip().split("-")[0], int(r.split("|")[1].strip().split("-")[1])))
+print("| seed | what it is (author's first line) | confirmed (demo 0/1, suite 526/526) | caught by | evaluated at /repo HEAD |")
+print("|---|---|---|---|---|")
 print("\n".join(rows))
